@@ -112,6 +112,7 @@ struct Mesh {
 	std::vector<std::vector<std::pair<int, float>>> w; // per vertex (bone, weight), sums to 1, all distinct
 	std::vector<int> triParts;						   // partition of each triangle (skinned models)
 	int nparts = 1;
+	bool looseTriangle = false; // LE only: one more triangle is added to the shape after the partitions were built (it lies in no partition)
 };
 
 inline Mesh make_mesh(int mesh, int salt) {
@@ -148,6 +149,9 @@ inline Mesh make_mesh(int mesh, int salt) {
 			m.nparts = 1;
 			break;
 		}
+		case 4:
+			m.looseTriangle = true;
+			// fall through: the two-partition mesh
 		default:
 			// two strips, four triangles, two interleaved partitions
 			nv = 6;
@@ -382,6 +386,14 @@ inline void add_skin(NifFile& nif, NiShape* shape, const std::string& uniqueName
 		nif.SetShapePartitions(shape, info, m.triParts);
 	}
 	nif.UpdateSkinPartitions(shape);
+	if (m.looseTriangle && r.ver == V_LE && r.kind == 0) {
+		// a triangle that no partition lists (LE keeps the shape's triangles in the geometry data): the rebuild that ends a
+		// conversion has to place it, or the SE shape - which keeps its triangles in the partitions - loses it
+		std::vector<Triangle> t;
+		shape->GetTriangles(t);
+		t.push_back(Triangle(0, 4, 5));
+		shape->SetTriangles(t);
+	}
 
 	auto skinInst = hdr.GetBlock<NiSkinInstance>(shape->SkinInstanceRef());
 	auto skinData = skinInst ? hdr.GetBlock(skinInst->dataRef) : nullptr;
